@@ -250,6 +250,77 @@ def part_d(chk):
     chk.add_enum("nameplate-completions", n, keys, "Input.get_nameplate_completions for 8 prefixes against all 16 subsets of {1,12,123,2}", [["1", "12"], "1"], viol)
 
 
+def part_d2(chk):
+    """word completions as the interactive helper hands them out: the real Input machine with the real PGP wordlist, typed prefixes
+    in every letter case; reference = case-sensitive set comprehension over the word lists (so the reference does not share code
+    with the implementation), plus the clause 'every completion offered extends what was typed'"""
+    from wormhole._input import Input
+    from wormhole.timing import DebugTiming
+    viol = []
+    n = 0
+    keys = set()
+
+    class L:
+        def refresh(self):
+            pass
+
+    class C:
+        def got_nameplate(self, n):
+            pass
+
+        def finished_input(self, code):
+            pass
+    i = Input(DebugTiming())
+    i._L, i._C = L(), C()
+    i.start()
+    i.choose_nameplate("7")
+    i.got_wordlist(PGPWordList())
+
+    def variants(p):
+        out = {p, p.upper(), p.capitalize(), p.swapcase()}
+        if len(p) >= 2:
+            out.add(p[0] + p[1:].upper())
+            out.add(p[:-1] + p[-1].upper())
+        return out
+    typed = set()
+    for word in sorted(ODD):
+        for k in (0, 1, 2, 3, len(word)):
+            for v in variants(word[:k]):
+                typed.add(v)
+    for first in ("yucatan", "Yucatan", "YUCATAN", "adroitness"):
+        for word in sorted(EVEN)[::7]:
+            for k in (0, 1, 2, len(word)):
+                for v in variants(word[:k]):
+                    typed.add(first + "-" + v)
+    typed |= {"zzz", "-", "Zulu", "ZULU", "yucatan-Zulu", "É", "ß", "ı", "yucatan-İ"}
+    for t in sorted(typed):
+        try:
+            got = i.get_word_completions(t)
+        except Exception as e:
+            viol.append(dict(oracle="completions", sig="input-raises:%s" % type(e).__name__, msg="Input.get_word_completions(%r) raised %r" % (t, e), case=[t]))
+            continue
+        n += 1
+        pos = t.count("-")
+        keys.add((pos, len(got) > 0, t != t.lower()))
+        if pos > 1:
+            continue
+        before, _, last = t.rpartition("-")
+        lst = ODD if pos == 0 else EVEN
+        expect = set((before + "-" if pos else "") + w_ + ("-" if pos == 0 else "") for w_ in lst if w_.startswith(last))
+        if pos == 1 and before not in ODD and before.lower() not in ODD:
+            expect = None
+        for c in got:
+            if not c.startswith(t):
+                viol.append(dict(oracle="completions", sig="input-extends", msg="typed %r: the helper offers %r, which does not extend what was typed" % (t, c), case=[t]))
+                break
+        if expect is not None and got != expect and all(c.startswith(t) for c in got):
+            viol.append(dict(oracle="completions", sig="input-set:%d" % pos, msg="typed %r: helper offers %d completions, reference %d; diff %r" % (
+                t, len(got), len(expect), sorted(got ^ expect)[:4]), case=[t]))
+    chk.add_enum("input-word-completions", n, keys, "Input.get_word_completions on the real PGP wordlist for prefixes (lengths 0-3 and full) of every odd-list "
+                 "word and of every 7th even-list word after a first word, each in six letter-case variants, plus non-ASCII and junk prefixes: every "
+                 "completion extends exactly what was typed and the set equals a case-sensitive reference comprehension", sorted(typed)[:3], viol)
+
+
 # ---------------------------------------------------------------- (e) only one code call
 def part_e(chk):
     viol = []
@@ -411,6 +482,7 @@ def run(chk):
     part_b(chk)
     part_c(chk)
     part_d(chk)
+    part_d2(chk)
     part_e(chk)
     run_scenarios(chk, scenarios(chk.tier))
 
@@ -422,7 +494,7 @@ def replay(body):
     from ..core.report import Check
     chk = Check("C19", "quick", seed())
     chk.log = lambda m: None
-    for part in (part_a, part_b, part_c, part_d, part_e):
+    for part in (part_a, part_b, part_c, part_d, part_d2, part_e):
         part(chk)
     for v in chk.violations:
         print("VIOLATION-REPLAYED", v["oracle"], v["sig"], v["msg"])
